@@ -45,7 +45,15 @@ META = dict(
          "shared by several schedules, the offset re-assigned on a task between two evaluations; 40% of those with an offset aim "
          "T (or now) at now / the horizon / the minute boundary shifted by +- the offset; neither the oracle nor the model sees "
          "any of these fields; a schedule that carries cron AND time (3-4% of the varied ones) is run and counted but not "
-         "judged (the cron branch decides: C13)",
+         "judged (the cron branch decides: C13); about a quarter of the groups (60 `life` groups of 230, and 8% of the elements of "
+         "the others) RE-WORK an object that get_task_delay has already evaluated before evaluating it again: task.time assigned "
+         "(re-aimed at the clock of the moment: later / earlier / across the horizon; moved by a fixed amount; the same instant "
+         "respelled naive <-> aware / in another zone; the same wall clock with the other fold, without tzinfo, in another zone), the "
+         "new time handed to model_copy(update=...) / model_validate of the dumped fields, or assigned on a copy (model_copy shallow "
+         "/ deep, copy.copy, copy.deepcopy, pickle round trip, model_validate(model_dump()), the time through its ISO string) of the "
+         "evaluated object, unchanged copies, a second object derived from an evaluated one while the original lives on, other "
+         "fields re-assigned in between, re-evaluation at the same instant / seconds / a poll later; every evaluation judged on its "
+         "own with the target assigned last (the driver also reads task.time back from the evaluated object)",
     trusted_base=["model: coq/theories/SchedDelay.v (hand-written transcription of get_task_delay's time branch)",
                   "datetime<->integer instant conversion in harness/drivers/sched_delay.py"],
     assumptions=["asyncio.sleep(d) not waking early is outside this property (C15)"],
@@ -291,19 +299,22 @@ def gen_plain(r):
     k = r.random()
     if k < .15:   # pin the second of the minute
         now = now // MIN * MIN + r.choice([0, 1, 59, 58, 30]) * US + r.choice([0, 1, 999_999, r.randrange(US)])
+    return dict(type="time", now=now, T=aim_T(r, now), spell=gen_spell(r))
+
+
+def aim_T(r, now):
+    """a target time around `now`: boundary-biased (now, whole seconds, the horizon, the minute boundary), or anywhere"""
     hor = (now + MIN) // MIN * MIN + US
     k = r.random()
     if k < .35:
-        T = now + r.choice([-1, 0, 1, US, US - 1, US + 1, 2 * US, 59 * US, 60 * US, 61 * US, -US]) + r.randrange(-3, 4)
-    elif k < .6:
-        T = hor + r.randrange(-3, 4)
-    elif k < .8:
-        T = now + r.randrange(0, 62) * US + r.choice([0, 0, 1, -1, r.randrange(US)])
-    elif k < .9:
-        T = now // MIN * MIN + MIN + r.randrange(-2, 3)
-    else:
-        T = now + r.randrange(-2 * 86400 * US, 2 * 86400 * US)
-    return dict(type="time", now=now, T=T, spell=gen_spell(r))
+        return now + r.choice([-1, 0, 1, US, US - 1, US + 1, 2 * US, 59 * US, 60 * US, 61 * US, -US]) + r.randrange(-3, 4)
+    if k < .6:
+        return hor + r.randrange(-3, 4)
+    if k < .8:
+        return now + r.randrange(0, 62) * US + r.choice([0, 0, 1, -1, r.randrange(US)])
+    if k < .9:
+        return now // MIN * MIN + MIN + r.randrange(-2, 3)
+    return now + r.randrange(-2 * 86400 * US, 2 * 86400 * US)
 
 
 # ---------------------------------------------------------------- back-to-back groups (one scheduler process, several schedules)
@@ -510,26 +521,217 @@ def gen_group(r):
             e["host"], e["hostkind"] = host, hostkind
         elems.append(e)
     elems.sort(key=lambda e: e["now"])      # time does not run backwards inside one process
-    nobj = 0
+    st = new_slots()
     for k, e in enumerate(elems):
         prev = [p for p in elems[:k] if p["val"] == e["val"]]
         x = r.random()
-        if prev and x < .2:       # the same ScheduledTask evaluated again (the loop, a minute later)
-            p = r.choice(prev)
-            if p.get("task") is None:
-                p["task"] = nobj
-                nobj += 1
-            e["task"], e["obj"] = p["task"], p["obj"]
-            if p.get("via"):
-                e["via"] = p["via"]
+        if k and r.random() < .08:   # an evaluated ScheduledTask object RE-TARGETED to this element's time (any earlier one)
+            reuse_task(r, e, r.choice(elems[:k]), st, elems[:k])
+        elif prev and x < .2:     # the same ScheduledTask evaluated again (the loop, a minute later)
+            reuse_task(r, e, r.choice(prev), st, elems[:k])
         elif prev and x < .45:    # the same datetime OBJECT handed to another ScheduledTask
             e["obj"] = r.choice(prev)["obj"]
         else:                     # an equal value, a distinct object (the zone object stays shared)
-            e["obj"] = nobj
-            nobj += 1
+            e["obj"] = st["n"]
+            st["n"] += 1
             if x > .9:
                 e["via"] = "iso"
     g = dict(type="group", group=elems, mode=r.choice(["interleaved", "build-first"]), scen=scen)
+    if g["mode"] == "build-first":
+        g["build_order"] = r.sample(range(len(elems)), len(elems))
+    if pool is not None:
+        sched_group(r, g, pool)
+    return g
+
+
+# A long-lived schedule OBJECT.  Until round 7 a ScheduledTask that was evaluated twice carried the same target both times
+# (only its cron_offset was ever re-assigned): what the object was when get_task_delay FIRST saw it and what it is NOW
+# were the same thing.  In-memory schedule sources postpone / pull forward / re-arm a schedule by assigning `task.time`
+# (the model is mutable) or by model_copy(update={"time": ...}) of the evaluated object; stores hand back pickled or
+# re-validated copies.  The statement speaks of the target time the schedule HAS when it is evaluated.
+DERIVES = ["model_copy", "model_copy_deep", "copy.copy", "copy.deepcopy", "pickle", "revalidate", "revalidate_iso"]
+
+
+def new_slots():
+    return {"n": 0, "slot": {}}
+
+
+def gen_re(r, changed):
+    """how an evaluated object is re-worked before its next evaluation"""
+    re = {}
+    k = r.random()
+    if changed:
+        re["set_time"] = True
+        if k < .5:
+            pass                                      # task.time = value
+        elif k < .75:                                 # the new time is part of the copy operation itself
+            re["derive"] = r.choice(["model_copy", "model_copy", "model_copy_deep", "revalidate"])
+            re["in_copy"] = True
+        else:                                         # a copy of the evaluated object, then the assignment on the copy
+            re["derive"] = r.choice(DERIVES)
+    elif k >= .5:
+        re["derive"] = r.choice(DERIVES)              # an unchanged copy is what gets evaluated
+    return re
+
+
+def reuse_task(r, e, p, st, before):
+    """element e evaluates the ScheduledTask object of the earlier element p again.  While the object carries e's own value
+    and was never re-worked this is the plain re-evaluation of round 5; otherwise e["re"] says how the object gets e's time"""
+    if p.get("task") is None:
+        p["task"] = st["n"]
+        st["n"] += 1
+        st["slot"][p["task"]] = {"val": p["val"], "re": False}
+    s = st["slot"][p["task"]]
+    e["task"] = p["task"]
+    if s["val"] == e["val"] and not s["re"] and r.random() < .8:
+        e["obj"] = p["obj"]
+        if p.get("via"):
+            e["via"] = p["via"]
+        return
+    e["re"] = gen_re(r, s["val"] != e["val"])
+    e["re"]["change"] = "another schedule time of the group" if s["val"] != e["val"] else "none"
+    same = [q for q in before if q["val"] == e["val"]]
+    if same and r.random() < .3:     # the very datetime object another schedule holds
+        e["obj"] = r.choice(same)["obj"]
+    else:
+        e["obj"] = st["n"]
+        st["n"] += 1
+    s["val"], s["re"] = e["val"], True
+
+
+def respelled(r, T, like, zone, tag):
+    """instant T in the spelling of value `like` where that is possible, else in any"""
+    sp = like["spell"]
+    if "wall" in sp:
+        wall, fold = wall_of(sp["kind"], sp["zone"], T)
+        v = wall_value(sp["kind"], sp["zone"], wall, fold, tag, sp.get("tzid", 0))
+        return v if v["T"] == T else instant_value(r, T, zone, tag)
+    return dict(T=T, tag=tag, spell={k: v for k, v in sp.items() if k != "fold"})
+
+
+def life_change(r, change, pv, now, zone, kind):
+    """the next target of an object whose current one is pv"""
+    import datetime as dt
+    sp = pv["spell"]
+    if change == "aim":           # postponed / pulled forward / re-armed relative to the clock of the moment
+        T = aim_T(r, now)
+        return respelled(r, T, pv, zone, "re-aimed at the clock") if r.random() < .5 else instant_value(
+            r, T, zone, "re-aimed at the clock")
+    if change == "shift":         # moved by a fixed amount
+        T = pv["T"] + r.choice([1, -1]) * r.choice([1, US, 30 * US, MIN, 10 * MIN, 3600 * US, 86400 * US, r.randrange(1, 120 * US)])
+        return respelled(r, T, pv, zone, "moved by a fixed amount")
+    if change == "respell":       # the same instant written another way (naive <-> aware, another zone)
+        return instant_value(r, pv["T"], zone, "same instant, other spelling")
+    if change == "flip":          # the same wall clock, the other fold (== and hash of datetime do not see it)
+        if "wall" in sp:
+            return wall_value(sp["kind"], sp["zone"], sp["wall"], 1 - sp["fold"], "same wall clock, fold flipped", sp.get("tzid", 0))
+        wall, f = wall_of(kind, zone, pv["T"])
+        return wall_value(kind, zone, wall, 1 - f, "same wall clock, fold flipped")
+    if change == "same-wall":     # the same wall clock read as naive / in another zone / at a fixed offset
+        wall, f = (sp["wall"], sp["fold"]) if "wall" in sp else wall_of("zoneinfo", zone, pv["T"])
+        Tw = (dt.datetime(*wall) - dt.datetime(1970, 1, 1)) // dt.timedelta(microseconds=1)
+        k = r.random()
+        if k < .4 and sp.get("kind") != "naive":
+            return dict(T=Tw, tag="same wall clock, tzinfo dropped", spell={"kind": "naive"})
+        if k < .75:
+            return wall_value(r.choice(["zoneinfo", "dateutil"]), r.choice(ZONES), wall, f, "same wall clock, other zone")
+        m = r.randint(-12, 14) * 60 + r.choice([0, 0, 30, 45])
+        return dict(T=Tw - m * MIN, tag="same wall clock, fixed offset", spell={"kind": "fixed", "minutes": m})
+    raise ValueError(change)
+
+
+def gen_life(r):
+    """the life of a long-lived schedule object: evaluated, re-targeted / copied / stored and loaded, evaluated again ...
+    One group = 2..8 evaluations of 1..3 objects that descend from one ScheduledTask; every evaluation judged on its own
+    with the target the object carries at that evaluation"""
+    zone = r.choice(DSTZ)
+    kind = r.choice(["zoneinfo", "zoneinfo", "dateutil"])
+    rep_h = [x for x in zone_shifts(zone) if x[1] > 0]
+    c = gen_dst_case(r) if r.random() < .25 else gen_plain(r)
+    now = c["now"]
+    if rep_h and r.random() < .2:    # the first target inside a repeated hour, as wall clock + fold
+        tr, d = r.choice(rep_h)
+        wall, f = wall_of(kind, zone, tr - r.randrange(1, d + 1))
+        v0 = wall_value(kind, zone, wall, r.choice([0, 1]), "repeated-hour wall clock")
+        now = aim_now(r, v0["T"])
+    else:
+        v0 = instant_value(r, pin_subsec(r, c["T"]) if r.random() < .3 else c["T"], zone, "first target")
+    vals = [v0]
+    st = new_slots()
+    host, hostkind = None, None
+    if r.random() < .3:
+        k = r.random()
+        if k < .35:
+            host, hostkind = zone, "iana-of-the-schedules"
+        elif k < .7:
+            host, hostkind = r.choice(HOSTS_POSIX)[0], "posix"
+        else:
+            host, hostkind = r.choice(HOSTS_IANA), "iana"
+    pool = [gen_off(r) for _ in range(r.choice([1, 2]))] if r.random() < .5 else None
+
+    def elem(vi, slot):
+        v = vals[vi]
+        e = dict(type="time", now=now, T=v["T"], spell=v["spell"], tag=v["tag"], scen="life", val=vi, task=slot)
+        if pool is not None:
+            e["_oi"] = r.randrange(len(pool))
+        if host:
+            e["host"], e["hostkind"] = host, hostkind
+        return e
+
+    def new_obj(e):
+        e["obj"] = st["n"]
+        st["n"] += 1
+
+    slots = [0]                       # slot -> index of the value the object in it carries
+    elems = [elem(0, 0)]
+    new_obj(elems[0])
+    for _ in range(r.choice([1, 1, 2, 2, 3, 4, 5, 7])):
+        now += r.choice([0, 0, 1, r.randrange(5 * US), r.randrange(50 * US, 62 * US), MIN, r.randrange(1, 4) * MIN + r.randrange(US)])
+        k = r.random()
+        if k >= .92 and len(slots) < 3:    # an unrelated new schedule next to the long-lived ones
+            vals.append(instant_value(r, aim_T(r, now), zone, "another schedule"))
+            slots.append(len(vals) - 1)
+            elems.append(elem(len(vals) - 1, len(slots) - 1))
+            new_obj(elems[-1])
+            continue
+        src = r.randrange(len(slots))
+        slot = len(slots) if k >= .75 and len(slots) < 3 else src   # a NEW object derived from an evaluated one / the same
+        pv = vals[slots[src]]
+        change = r.choices(["none", "aim", "shift", "respell", "flip", "same-wall"], [.12, .38, .2, .12, .1, .08])[0]
+        v = pv
+        if change != "none":
+            try:
+                v = life_change(r, change, pv, now, zone, kind)
+            except (ValueError, OverflowError):
+                v = pv
+        if v["T"] == pv["T"] and C.canon(v["spell"]) == C.canon(pv["spell"]):
+            change, vi = "none", slots[src]
+        else:
+            vals.append(v)
+            vi = len(vals) - 1
+            if r.random() < .3:       # the clock of this evaluation aimed at the new target
+                cand = aim_now(r, v["T"])
+                if 0 <= cand - elems[-1]["now"] < 10 * MIN:
+                    now = cand
+        e = elem(vi, slot)
+        e["re"] = gen_re(r, vi != slots[src])
+        e["re"]["change"] = change
+        if slot != src:
+            e["re"]["src"] = src
+            if "derive" not in e["re"]:
+                e["re"]["derive"] = r.choice(DERIVES)
+            slots.append(vi)
+        else:
+            slots[slot] = vi
+        if change == "none" and "in_copy" not in e["re"] and r.random() < .3:
+            e["re"]["set_time"] = True      # the value it already has assigned again: the same object or an equal one
+            prev = [q for q in elems if q["val"] == vi]
+            if r.random() < .5 and prev:
+                e["obj"] = prev[-1]["obj"]
+        if "obj" not in e:
+            new_obj(e)
+        elems.append(e)
+    g = dict(type="group", group=elems, mode=r.choice(["interleaved", "build-first"]), scen="life")
     if g["mode"] == "build-first":
         g["build_order"] = r.sample(range(len(elems)), len(elems))
     if pool is not None:
@@ -549,6 +751,22 @@ def sched_group(r, g, pool):
     first = {}
     for e in g["group"]:
         oi = e.pop("_oi")
+        if "re" in e and e["re"].get("src", e["task"]) in first:
+            # a re-worked object keeps the other fields it had; a third get one of them re-assigned as well; cron AND time
+            # objects (not judged) mostly lose their cron and become ordinary one-shots that were evaluated before
+            sc = json.loads(json.dumps(first[e["re"].get("src", e["task"])]))
+            if r.random() < .3:
+                f, v = r.choice([("name", NAMES), ("labels", LABELS), ("args", ARGS), ("kwargs", KWARGS), ("sid", SIDS)])
+                sc[f] = r.choice(v)
+                e["re"].setdefault("set", {})[f] = sc[f]
+            if sc.get("cron") is not None and r.random() < .6:
+                del sc["cron"]
+                e["re"].setdefault("set", {})["cron"] = None
+            if r.random() < .25:
+                e["reoff"] = r.choice(pool) if r.random() < .6 else gen_off(r)
+            e["sched"] = sc
+            first[e["task"]] = sc
+            continue
         if e.get("task") is not None and e["task"] in first:
             e["sched"] = json.loads(json.dumps(first[e["task"]]))
             if r.random() < .35:
@@ -688,6 +906,7 @@ def group_counts(rep, g):
         rep.count("group:one instant in several spellings")
     if len({(e["T"], C.canon(e["spell"])) for e in el}) < len({e.get("obj") for e in el}):
         rep.count("group:equal values as distinct objects")
+    retarget_counts(rep, el)
     if not any(e.get("sched") for e in el):
         return
     rep.count("group:sched:groups whose schedules differ in their other fields")
@@ -710,6 +929,52 @@ def group_counts(rep, g):
         if len({C.canon(eff_off(e)) for e in el if e["T"] == T}) > 1:
             rep.count("group:sched:one target time with different offsets")
             break
+
+
+def vclass(e):
+    return "zero" if e["T"] <= e["now"] else "none" if e["T"] > e["now"] // MIN * MIN + MIN + US else "delay"
+
+
+def re_how(re):
+    d = re.get("derive")
+    if not re.get("set_time"):
+        return "evaluated again as it is" if not d else "an unchanged copy (%s)" % d
+    if not d:
+        return "task.time = value"
+    return "%s with the new time in the copy operation" % d if re.get("in_copy") else "copy (%s), then copy.time = value" % d
+
+
+def retarget_counts(rep, el):
+    """what the re-worked objects of one group went through - counted from the case alone"""
+    last, any_re = {}, False
+    for e in el:
+        re = e.get("re")
+        if re is not None:
+            any_re = True
+            p = last.get(re.get("src", e.get("task")))
+            rep.count("retarget:evaluations of an object that was evaluated before and re-worked since")
+            rep.count("retarget:change:" + re.get("change", "corpus"))
+            rep.count("retarget:through:" + re_how(re))
+            if "src" in re:
+                rep.count("retarget:a NEW object derived from an evaluated one, the original stays alive")
+            if p is not None:
+                rep.count("retarget:target %s" % ("moved later" if e["T"] > p["T"] else "moved earlier" if e["T"] < p["T"] else
+                                                  "the same instant"))
+                rep.count("retarget:verdict class at the previous evaluation -> at this one:%s -> %s" % (vclass(p), vclass(e)))
+                a, b = p["spell"]["kind"] == "naive", e["spell"]["kind"] == "naive"
+                if a != b:
+                    rep.count("retarget:naive <-> aware")
+                if "wall" in p["spell"] and "wall" in e["spell"] and p["spell"]["wall"] == e["spell"]["wall"] and (
+                        p["spell"]["zone"] == e["spell"]["zone"] and p["spell"]["fold"] != e["spell"]["fold"]):
+                    rep.count("retarget:same wall clock, other fold (%s)" % ("another instant" if e["T"] != p["T"] else "same instant"))
+                if e["now"] == p["now"]:
+                    rep.count("retarget:re-evaluated at the very same instant of the clock")
+            for f in re.get("set") or {}:
+                rep.count("retarget:other field re-assigned between two evaluations:" + f)
+        if e.get("task") is not None:
+            last[e["task"]] = e
+    if any_re:
+        rep.count("retarget:groups with a re-worked object")
 
 
 def explore(ctx, rep, cases, label):
@@ -739,6 +1004,11 @@ def explore(ctx, rep, cases, label):
             raise RuntimeError("harness inconsistency: case %s spells instant %r, the generator computed %r" % (
                 json.dumps(c), o["spelled_us"], c["T"]))
         sched_counts(rep, c, o)
+        if "re" in c and "carried_us" in o:
+            rep.count("retarget:task.time read back from the evaluated object is the element's T:%s" % (o["carried_us"] == c["T"]))
+        if o.get("stale"):       # the object does not carry this element's T because the element that assigned it is not
+            rep.count("retarget:stale element (its predecessor is missing) - not judged")   # there (hand-made / shrunk groups)
+            continue
         if not_judged(c):
             continue
         if "_crash" in o:
@@ -763,7 +1033,7 @@ def explore(ctx, rep, cases, label):
 
 
 def elem_fails(e, x):
-    if not_judged(e):
+    if not_judged(e) or x.get("stale"):
         return False
     return "_crash" in x or bool(x.get("badtype")) or not oracle(e["now"], e["T"], x["delay"])
 
@@ -829,13 +1099,15 @@ def run(ctx):
     cases = [gen_case(r) for _ in range(ctx.n(3600, 200000))]
     broken = explore(ctx, rep, cases, "main")
     rg = ctx.sub_rng("groups")
-    broken = explore(ctx, rep, [gen_group(rg) for _ in range(ctx.n(170, 9000))], "back-to-back-groups") or broken
+    rl = ctx.sub_rng("life")
+    broken = explore(ctx, rep, [gen_group(rg) for _ in range(ctx.n(170, 9000))] + [gen_life(rl) for _ in range(ctx.n(60, 3000))],
+                     "back-to-back-groups") or broken
     if not ctx.quick:
         float_exhaustive(ctx, rep)
     if (broken or any(not o["ok"] for o in rep.obligations)) and not rep.failures:
         r2 = ctx.sub_rng("search")
         explore(ctx, rep, [gen_case(r2) for _ in range(ctx.n(30000, 400000))] +
-                [gen_group(r2) for _ in range(ctx.n(1500, 20000))], "search")
+                [gen_group(r2) for _ in range(ctx.n(1500, 20000))] + [gen_life(r2) for _ in range(ctx.n(500, 7000))], "search")
     return rep.finish()
 
 
@@ -890,6 +1162,16 @@ def show_sched(e):
     return "; ".join(out)
 
 
+def show_re(e):
+    re = e.get("re")
+    if re is None:
+        return ""
+    out = ["RE-WORKED object of slot %s: %s" % (re.get("src", e.get("task")), re_how(re))]
+    for f, v in (re.get("set") or {}).items():
+        out.append("%s re-assigned to %s" % (f, json.dumps(v)[:40]))
+    return " <" + "; ".join(out) + ">"
+
+
 def show_spell(e):
     sp = e["spell"]
     if "wall" in sp:
@@ -914,7 +1196,12 @@ def replay_group(ctx, g):
         head = "[%d] now=%d T=%d (T-now=%d us) spelled %s%s%s%s%s" % (
             k, e["now"], e["T"], e["T"] - e["now"], show_spell(e), "" if e.get("obj") is None else " object#%d" % e["obj"],
             "" if e.get("task") is None else " task#%d" % e["task"], "" if not e.get("via") else " via " + e["via"],
-            "" if not e.get("sched") else " {%s}" % show_sched(e))
+            "" if not e.get("sched") else " {%s}" % show_sched(e)) + show_re(e)
+        if "re" in e or x.get("carried_us") not in (None, e["T"]):
+            head += " [task.time read back: %r]" % (x.get("carried_us"),)
+        if x.get("stale"):
+            print(head + ": the object does not carry this element's T (the element that assigned it is missing): not judged")
+            continue
         if not_judged(e):
             print(head + ": got %r - cron AND time, the cron branch decides (C13): not judged" % (x.get("delay"),))
             continue
